@@ -591,3 +591,138 @@ Proof.
     set (ch := mj_ch (mj_level S (tied_of (gnb medians n))) medians) in *.
     apply (IH _ _ (T - ch)%Z); [exact HI'|lia|]. rewrite own_remove_length. lia.
 Qed.
+
+(* ================================================================ the k-fold run follows the original run *)
+Lemma is_med_compat d g g' : (g == g')%Q -> is_med d g -> is_med d g'.
+Proof.
+  intros E [H1 H2]. unfold is_med, below, atmost in *.
+  assert (E1 : sumf (fun s => qlt s g') d = sumf (fun s => qlt s g) d).
+  { clear - E. induction d as [|[s n] d IH]; [reflexivity|]. cbn [sumf fold_right fst snd]. fold (sumf (fun s => qlt s g') d). fold (sumf (fun s => qlt s g) d).
+    rewrite IH. unfold qlt. rewrite (Qle_bool_Qeq g g' s s) by (try reflexivity; symmetry; exact E). reflexivity. }
+  assert (E2 : sumf (fun s => Qle_bool s g') d = sumf (fun s => Qle_bool s g) d).
+  { clear - E. induction d as [|[s n] d IH]; [reflexivity|]. cbn [sumf fold_right fst snd]. fold (sumf (fun s => Qle_bool s g') d). fold (sumf (fun s => Qle_bool s g) d).
+    rewrite IH. rewrite (Qle_bool_Qeq s s g g') by (try reflexivity; symmetry; exact E). reflexivity. }
+  rewrite E1, E2. split; assumption.
+Qed.
+
+Lemma good_scalec k d : (0 <= k)%Z -> good d -> good (scalec k d).
+Proof. intros Hk [H1 H2]. split; [rewrite scalec_keys; exact H1|apply nonneg_scalec; assumption]. Qed.
+
+Lemma good_adj_add d s delta : good d -> In s (map fst d) -> (0 <= delta)%Z -> good (adj d s delta).
+Proof.
+  intros Hg Hs Hd. apply good_adj; [exact Hg|exact Hs|].
+  assert (0 <= get0 d s)%Z; [|lia]. destruct Hg as [Hk Hnn]. rewrite (get0_cnt d s Hk).
+  assert (below d s <= atmost d s)%Z; [|lia]. apply sumf_mono; [exact Hnn|]. intros x Hx. apply qlt_iff in Hx. apply Qle_bool_iff. lra.
+Qed.
+
+Section PerCand.
+  Variable k : Z.
+  Hypothesis Hk : (0 < k)%Z.
+  Variables (d : cscores) (T : Z) (m : Q).
+  Hypothesis Hg : good d.
+  Hypothesis Ht : cs_total d = T.
+  Hypothesis Hm : In m (map fst d).
+  Hypothesis Hmed : is_med d m.
+
+  Let Hkd : keys_nd (map fst d) := proj1 Hg.
+
+  Lemma get0_med_pos : (1 <= get0 d m)%Z.
+  Proof. pose proof Hmed as [M1 M2]. rewrite (get0_cnt d m Hkd). lia. Qed.
+
+  (* counts of an adjusted k-fold dictionary *)
+  Lemma total_sa s a : In s (map fst d) -> cs_total (adj (scalec k d) s a) = (k * T + a)%Z.
+  Proof.
+    intros Hs. rewrite total_adj, total_scalec, Ht; [reflexivity|rewrite scalec_keys; exact Hkd|apply has_In; rewrite scalec_keys; exact Hs].
+  Qed.
+
+  (* sync, odd total: j < k removals from the k-fold dictionary leave the median where it is *)
+  Lemma sync_odd_med j : Z.odd T = true -> (0 <= j < k)%Z -> is_med (adj (scalec k d) m (- j)) m.
+  Proof.
+    intros Ho Hj. pose proof Hmed as [M1 M2]. rewrite Ht in M1, M2. unfold is_med.
+    assert (Hks : keys_nd (map fst (scalec k d))) by (rewrite scalec_keys; exact Hkd).
+    assert (Hhs : has (scalec k d) m) by (apply has_In; rewrite scalec_keys; exact Hm).
+    rewrite (total_adj _ _ _ Hks Hhs), (below_adj _ _ _ m Hks Hhs), (atmost_adj _ _ _ m Hks Hhs), qlt_irrefl, Qle_bool_refl,
+            total_scalec, below_scalec, atmost_scalec, Ht.
+    pose proof Ho as Ho'. rewrite Z.odd_spec in Ho'. destruct Ho' as [t Et].
+    assert (A1 : (0 <= k * (T - 1 - 2 * below d m))%Z) by (apply Z.mul_nonneg_nonneg; lia).
+    assert (A2 : (0 <= k * (2 * atmost d m - T - 1))%Z) by (apply Z.mul_nonneg_nonneg; lia).
+    lia.
+  Qed.
+
+  Lemma sync_good j : (0 <= j <= k)%Z -> good (adj (scalec k d) m (- j)).
+  Proof.
+    intros Hj. apply good_adj; [apply good_scalec; [lia|exact Hg]|rewrite scalec_keys; exact Hm|].
+    rewrite get0_scalec. pose proof get0_med_pos. nia.
+  Qed.
+
+  (* the staircase between  k * (d - m)  and  k * d + (k-1) h *)
+  Variable h : Q.
+  Hypothesis Hh : In h (map fst d).
+  Hypothesis Ho : Z.odd T = true.
+  Hypothesis Hh1 : (2 * below d h <= T - 1)%Z.
+  Hypothesis Hh2 : (T - 1 <= 2 * atmost d h)%Z.
+
+  Definition stairB : cscores := scalec k (adj d m (- (1))).
+  Definition stairZ (x y : Z) : cscores := adj (adj stairB h x) m y.
+
+  Lemma stairB_keys : map fst stairB = map fst d.
+  Proof. unfold stairB. rewrite scalec_keys, adj_keys. reflexivity. Qed.
+
+  Lemma stair_good x y : (0 <= x)%Z -> (0 <= y)%Z -> good (stairZ x y).
+  Proof.
+    intros Hx Hy. unfold stairZ. apply good_adj_add; [apply good_adj_add|rewrite adj_keys, stairB_keys; exact Hm|exact Hy].
+    - unfold stairB. apply good_scalec; [lia|]. apply good_adj; [exact Hg|exact Hm|]. pose proof get0_med_pos. lia.
+    - rewrite stairB_keys. exact Hh.
+    - exact Hx.
+  Qed.
+
+  Lemma h_le_m : (h <= m)%Q.
+  Proof.
+    destruct (Qlt_le_dec m h) as [Hlt|Hle]; [|exact Hle]. exfalso. pose proof Hmed as [M1 M2]. rewrite Ht in M1, M2.
+    assert (H : (atmost d m <= below d h)%Z).
+    { apply sumf_mono; [exact (proj2 Hg)|]. intros s Hs. apply Qle_bool_iff in Hs. apply qlt_iff. lra. }
+    pose proof Ho as Ho'. rewrite Z.odd_spec in Ho'. destruct Ho' as [t Et]. lia.
+  Qed.
+
+  Lemma stair_counts x y g :
+    cs_total (stairZ x y) = (k * (T - 1) + x + y)%Z /\
+    below (stairZ x y) g = (k * (below d g - if qlt m g then 1 else 0) + (if qlt h g then x else 0) + (if qlt m g then y else 0))%Z /\
+    atmost (stairZ x y) g = (k * (atmost d g - if Qle_bool m g then 1 else 0) + (if Qle_bool h g then x else 0) + (if Qle_bool m g then y else 0))%Z.
+  Proof.
+    assert (K0 : keys_nd (map fst stairB)) by (rewrite stairB_keys; exact Hkd).
+    assert (K1 : keys_nd (map fst (adj stairB h x))) by (rewrite adj_keys; exact K0).
+    assert (H0 : has stairB h) by (apply has_In; rewrite stairB_keys; exact Hh).
+    assert (H1 : has (adj stairB h x) m) by (apply has_In; rewrite adj_keys, stairB_keys; exact Hm).
+    assert (Hd : has d m) by (apply has_In; exact Hm).
+    unfold stairZ. rewrite (total_adj _ _ _ K1 H1), (total_adj _ _ _ K0 H0), (below_adj _ _ _ g K1 H1), (below_adj _ _ _ g K0 H0),
+      (atmost_adj _ _ _ g K1 H1), (atmost_adj _ _ _ g K0 H0).
+    unfold stairB. rewrite total_scalec, below_scalec, atmost_scalec, (total_adj _ _ _ Hkd Hd), (below_adj _ _ _ g Hkd Hd), (atmost_adj _ _ _ g Hkd Hd), Ht.
+    repeat split; destruct (qlt m g), (qlt h g), (Qle_bool m g), (Qle_bool h g); lia.
+  Qed.
+
+  Lemma stair_med_m x : (0 <= x <= k - 1)%Z -> is_med (stairZ x (x + 1)) m.
+  Proof.
+    intros Hx. pose proof Hmed as [M1 M2]. rewrite Ht in M1, M2. pose proof Ho as Ho'. rewrite Z.odd_spec in Ho'. destruct Ho' as [t Et].
+    destruct (stair_counts x (x + 1) m) as (E1 & E2 & E3). unfold is_med. rewrite E1, E2, E3, qlt_irrefl, Qle_bool_refl.
+    assert (A1 : (0 <= k * (T - 1 - 2 * below d m))%Z) by (apply Z.mul_nonneg_nonneg; lia).
+    assert (A2 : (0 <= k * (2 * atmost d m - T - 1))%Z) by (apply Z.mul_nonneg_nonneg; lia).
+    pose proof h_le_m as Hle.
+    assert (B1 : Qle_bool h m = true) by (apply Qle_bool_iff; exact Hle). rewrite B1.
+    destruct (qlt h m); lia.
+  Qed.
+
+  Lemma stair_med_h x : (1 <= x <= k - 1)%Z -> is_med (stairZ x x) h.
+  Proof.
+    intros Hx. pose proof Hmed as [M1 M2]. rewrite Ht in M1, M2. pose proof Ho as Ho'. rewrite Z.odd_spec in Ho'. destruct Ho' as [t Et].
+    destruct (stair_counts x x h) as (E1 & E2 & E3). unfold is_med. rewrite E1, E2, E3, qlt_irrefl, Qle_bool_refl.
+    pose proof h_le_m as Hle.
+    assert (B0 : qlt m h = false) by (apply not_true_iff_false; rewrite qlt_iff; lra). rewrite B0.
+    assert (A1 : (0 <= k * (T - 1 - 2 * below d h))%Z) by (apply Z.mul_nonneg_nonneg; lia).
+    assert (A2 : (0 <= k * (2 * atmost d h - (T - 1)))%Z) by (apply Z.mul_nonneg_nonneg; lia).
+    destruct (Qle_bool m h) eqn:B2; [|lia].
+    (* h == m *)
+    apply Qle_bool_iff in B2. assert (E : (m == h)%Q) by (apply Qle_antisym; assumption).
+    assert (Hmh : is_med d h) by (apply (is_med_compat d m h E); split; rewrite Ht; assumption). destruct Hmh as [N1 N2]. rewrite Ht in N1, N2. assert (A3 : (0 <= k * (2 * atmost d h - T - 1))%Z) by (apply Z.mul_nonneg_nonneg; lia).
+    lia.
+  Qed.
+End PerCand.
